@@ -109,6 +109,14 @@ def m_len(I, args, kwargs):
         return B.blen(I, v)
     if isinstance(v, STuple):
         return B.blen(I, v.b)
+    from .api import SymList
+
+    if isinstance(v, SymList):
+        return I.sint(v.n0 + len(v.tail))
+    if type(v).__name__ == "SymDict":
+        n = I.path.fresh_int("len.symdict")
+        I.path.assume(n >= 0)
+        return I.sint(n)
     if isinstance(v, SObj):
         r = I.lookup_class_attr(v.cls, "__len__")
         if r is not None and I.is_interp_func(r[0]):
@@ -384,11 +392,28 @@ def m_bytearray(I, args, kwargs):
     return _mk_bytes(I, args, kwargs, True)
 
 
+class _RStripped(SBytes):
+    """bytes(s, 'latin_1') of a latin-1 string whose trailing NULs were stripped: only `.ljust(n, NUL)`
+    back to the original length is in the subset."""
+
+    __slots__ = ("_rstripped0",)
+
+    def __init__(self, full):
+        SBytes.__init__(self, [], False)
+        self._rstripped0 = full
+
+
 def _mk_bytes(I, args, kwargs, mutable):
     if not args:
         return SBytes([], True) if mutable else b""
     v = args[0]
     if len(args) > 1 or kwargs:
+        enc = args[1] if len(args) > 1 else kwargs.get("encoding")
+        if isinstance(v, SStr) and v.tag in ("latin1", "latin1_rstrip0") and isinstance(enc, str) and enc.lower().replace("-", "_") in ("latin_1", "latin1"):
+            if v.tag == "latin1":
+                return SBytes(list(v.parts[0].segs), mutable)
+            r = _RStripped(v.parts[0])
+            return r
         if _sym(args) or _sym(kwargs):
             raise Unsupported("bytes(str, encoding) on symbolic")
         r = _native(I, bytearray if mutable else bytes, args, kwargs)
@@ -407,6 +432,10 @@ def _mk_bytes(I, args, kwargs, mutable):
         if v > 100000:
             raise Unsupported("huge bytes(n)")
         return SBytes([BSeg(0)] * v, True) if mutable else bytes(v)
+    if isinstance(v, tuple) and hasattr(type(v), "_fields"):
+        r = I.lookup_class_attr(type(v), "__bytes__")
+        if r is not None and I.is_interp_class(r[1]):
+            return I.call_function(r[0], [v], {}, defcls=r[1])
     if isinstance(v, (list, tuple)):
         if not _sym(v):
             r = _native(I, bytearray if mutable else bytes, [v], {})
@@ -670,6 +699,16 @@ def m_chr(I, args, kwargs):
     if _sym(args):
         return SStr("chr")
     return _native(I, chr, args, kwargs)
+
+
+@model(bytes.fromhex)
+def m_fromhex(I, args, kwargs):
+    s = args[-1]
+    if isinstance(s, SStr) and s.tag == "hex" and s.parts and s.parts[1] == "":
+        return SBytes(list(s.parts[0].segs), False)
+    if _sym(s):
+        raise Unsupported("bytes.fromhex of opaque string")
+    return _native(I, bytes.fromhex, [s], {})
 
 
 @model(int.from_bytes)
@@ -963,6 +1002,45 @@ def m_unpack(I, args, kwargs):
                     out.append(from_be(I, [chunk.at(i) for i in idx], nb=8 * size))
             pos = B._add(pos, size)
     return tuple(out)
+
+
+# ----------------------------------------------------------------------------- socket (IPv4 text form)
+import socket as _socket  # noqa: E402
+
+
+@model(_socket.inet_ntoa)
+def m_inet_ntoa(I, args, kwargs):
+    """Contract: canonical dotted quad of 4 octets (kept structured: SStr 'ipv4' holding the octets);
+    OSError for any other length."""
+    (b,) = args
+    if not _sym(b):
+        return _native(I, _socket.inet_ntoa, args, kwargs)
+    if not is_byteslike(b):
+        I.raise_py(TypeError, "a bytes-like object is required")
+    b = B.to_sbytes(b)
+    n = b.fixed_len()
+    if n is None:
+        n = B.fix(I, b).fixed_len()
+    if n is None:
+        if not I.path.decide(iexpr(b.length()) == 4):
+            I.raise_py(OSError, "packed IP wrong length for inet_ntoa")
+        n = B.fix(I, b).fixed_len()
+    if n != 4:
+        I.raise_py(OSError, "packed IP wrong length for inet_ntoa")
+    return SStr("ipv4", [SBytes(SBytes(b.segs).expand().segs)])
+
+
+@model(_socket.inet_aton)
+def m_inet_aton(I, args, kwargs):
+    """Contract: inverse of inet_ntoa on canonical dotted quads."""
+    (s,) = args
+    if isinstance(s, SStr):
+        if s.tag == "ipv4":
+            return SBytes(list(s.parts[0].segs))
+        raise Unsupported("inet_aton of opaque string")
+    if isinstance(s, SVal) or not isinstance(s, str):
+        I.raise_py(TypeError, "inet_aton() argument 1 must be str")
+    return _native(I, _socket.inet_aton, args, kwargs)
 
 
 # ----------------------------------------------------------------------------- logging etc.
